@@ -36,7 +36,11 @@ def run_highwater(item):
         called = set()
         for year in item['years']:
             lo, hi = cal.epoch_seconds(year), cal.epoch_seconds(year + 1)
-            eng, leaves = zones.explore(mod, 'ext', item['index'], lo, hi, year, entry='z_ext_highwater')
+            try:
+                eng, leaves = zones.explore(mod, 'ext', item['index'], lo, hi, year, entry='z_ext_highwater')
+            except zones.engine.EngineError as e:
+                out['engine_errors'] = out.get('engine_errors', []) + ['year %d: %s' % (year, e)]
+                continue
             called |= eng.called
             for lf in leaves:
                 out['steps'] += lf.steps
@@ -62,8 +66,10 @@ def run_highwater(item):
                 buf &= 0xff
                 out['buf_size'] = buf
                 out['max_high_water'] = max(out['max_high_water'], hw)
-                if hw >= buf or hw >= 8:
-                    out['violations'].append((year, 'highWater=%d transitionBufSize=%d' % (hw, buf)))
+                pool = o['poolSize'] & 0xff
+                out['pool_size'] = pool
+                if hw >= buf or hw >= pool or buf > pool:
+                    out['violations'].append((year, 'highWater=%d transitionBufSize=%d poolSize=%d' % (hw, buf, pool)))
                 if 1999 <= year <= 2050 and isinstance(o['isError'], int) and o['isError']:
                     out['violations'].append((year, 'error offset inside the zone data range'))
         out['functions'] = sorted(called)
@@ -101,6 +107,8 @@ def main():
     for r in hw:
         if r['error']:
             kc.inconclusive.append('%s: %s' % (r['name'], r['error']))
+        for e in r.get('engine_errors', []):
+            kc.inconclusive.append('%s: engine: %s' % (r['name'], e))
         for (year, what) in r['violations']:
             kc._record('buffer:%s:%d' % (r['zone'], year), 'extended zone %s year %d: %s' % (r['zone'], year, what), True,
                        {'zone': r['zone'], 'year': year, 'what': what})
